@@ -119,7 +119,8 @@ def parse_cbmc(out):
                 res['props'].append(dict(name=p.get('property'), desc=p.get('description'), status=p.get('status'),
                                          trace=p.get('trace'), loc=p.get('sourceLocation', {})))
         if 'property' in item and 'status' in item and 'result' not in item:      # --stop-on-fail reports the failing property at top level
-            res['props'].append(dict(name=item.get('property'), desc=item.get('description'), status=item.get('status'),
+            st = item.get('status'); st = {'failed': 'FAILURE', 'success': 'SUCCESS'}.get(st, st)
+            res['props'].append(dict(name=item.get('property'), desc=item.get('description'), status=st,
                                      trace=item.get('trace'), loc=item.get('sourceLocation', {})))
         if 'goals' in item:
             res['goals'] = [dict(name=g.get('goal'), desc=g.get('description'), status=g.get('status'),
